@@ -31,6 +31,11 @@ func ValidityFragments() map[string]*Fragment {
 		{Name: "vmv", Leaves: []Leaf{leaf("v", "mand", K{"id", "m1"}, "v")}},
 		{Name: "vmm", Leaves: []Leaf{leaf("m", "mand", K{"id", "m1"}, "m")}},
 		// a relative leafref that climbs out of an entry of a two-key list (../../sys/hostname)
+		// dm/strict has a default (on) that violates its own must unless dm/name is set: vdf alone is invalid
+		// although no intent writes the offending leaf, vdn completes it, vds switches strict off
+		{Name: "vdf", Leaves: []Leaf{leaf("x", "dm", "flag")}},
+		{Name: "vdn", Leaves: []Leaf{leaf("n", "dm", "name")}},
+		{Name: "vds", Leaves: []Leaf{leaf("off", "dm", "strict")}},
 		{Name: "vok", Leaves: []Leaf{leaf("r1", "ok2", K{"k1", "sys"}, K{"k2", "y"}, "href")}},
 	}
 	m := map[string]*Fragment{}
@@ -40,7 +45,7 @@ func ValidityFragments() map[string]*Fragment {
 	return m
 }
 
-var ValidityFragOrder = []string{"vh1", "vhU", "vhL", "vm9", "vm5", "vg", "vup", "vif", "vif2", "vd3", "vd4", "vl2", "vl3", "vl77", "vmv", "vmm", "vok"}
+var ValidityFragOrder = []string{"vh1", "vhU", "vhL", "vm9", "vm5", "vg", "vup", "vif", "vif2", "vd3", "vd4", "vl2", "vl3", "vl77", "vmv", "vmm", "vok", "vdf", "vdn", "vds"}
 
 func validityMulti() []Op {
 	return []Op{
@@ -125,13 +130,34 @@ func (c C04Checker) Check(s *Step) []*Violation {
 		mode = "multi"
 	}
 	ctx := fmt.Sprintf("%s:%s%s", opKinds(s.Op), mode, sw)
+	// cause tag (must only; the mandatory and leafref variants have their own recorded findings): the invalid result
+	// would be valid if the values the transaction removes were still there, and they are in the running store
+	cause := ""
+	if !valid && classes["must"] {
+		with := map[string]string{}
+		for p, v := range cfg {
+			with[p] = v
+		}
+		removed := false
+		for p, v := range s.Pre.Running {
+			if _, ok := with[p]; !ok {
+				with[p] = v
+				removed = true
+			}
+		}
+		wc := RefClasses(with)
+		delete(wc, c.DisabledClass)
+		if removed && len(wc) == 0 {
+			cause = ":removed-values-still-seen"
+		}
+	}
 	applied := s.Out.DevCalls > 0 || (s.Post != nil && s.Pre.IntendedKey() != s.Post.IntendedKey())
 	switch {
 	case !s.Accepted && applied && !valid:
 		vs = append(vs, &Violation{Clause: "invalid-applied-despite-errors", Sig: "invalid-applied-despite-errors:" + classKey(classes) + ":" + ctx,
 			Detail: fmt.Sprintf("the response reports errors (%v) but the change was applied (device calls=%d); the resulting configuration violates %v; resulting=%v", intentErrors(s.Out), s.Out.DevCalls, classKey(classes), cfg)})
 	case s.Accepted && !valid:
-		vs = append(vs, &Violation{Clause: "invalid-accepted", Sig: "invalid-accepted:" + classKey(classes) + ":" + ctx,
+		vs = append(vs, &Violation{Clause: "invalid-accepted", Sig: "invalid-accepted:" + classKey(classes) + cause + ":" + ctx,
 			Detail: fmt.Sprintf("applied, but the resulting configuration violates %v: %v; resulting=%v", classKey(classes), RefValidate(cfg), cfg)})
 	case !s.Accepted && valid:
 		vs = append(vs, &Violation{Clause: "valid-refused", Sig: "valid-refused:" + errClass(s.Out) + ":" + ctx,
@@ -143,7 +169,7 @@ func (c C04Checker) Check(s *Step) []*Violation {
 		if err != nil {
 			vs = append(vs, &Violation{Clause: "replica", Sig: "replica-error", Detail: err.Error()})
 		} else if acc != s.Accepted {
-			vs = append(vs, &Violation{Clause: "verdict-depends-on-split", Sig: fmt.Sprintf("verdict-depends-on-split:%s:history=%v,single=%v:%s", classKey(classes), s.Accepted, acc, ctx),
+			vs = append(vs, &Violation{Clause: "verdict-depends-on-split", Sig: fmt.Sprintf("verdict-depends-on-split:%s%s:history=%v,single=%v:%s", classKey(classes), cause, s.Accepted, acc, ctx),
 				Detail: fmt.Sprintf("the transaction was accepted=%v, the same resulting configuration submitted as one intent to an empty datastore was accepted=%v (err=%v intentErrors=%v); resulting=%v", s.Accepted, acc, out2.Err, intentErrors(out2), cfg)})
 		}
 	}
